@@ -53,6 +53,18 @@ Example varint_premises_hold :
   uvarint [255;255;255;255;255;255;255;255;255;2] = UOverflow.
 Proof. unfold in_i64, in_u64. repeat split; try lia; vm_compute; reflexivity. Qed.
 
+(* big.Int.Text(10) then big.Int.SetString(., 10) gives back every integer
+   (the decimal text of a bigint constant; digits from the standard library's
+   Z.to_int / Z.of_int). *)
+Theorem bigint_text_roundtrip : forall z, parse_dec (print_dec z) = Some z.
+Proof. exact parse_print_dec. Qed.
+
+Example bigint_text_examples :
+  print_dec (-18446744073709551616) = [45;49;56;52;52;54;55;52;52;48;55;51;55;48;57;53;53;49;54;49;54] /\
+  print_dec 0 = [48] /\ parse_dec [43;48;48;55] = Some 7 /\ parse_dec [45] = None /\
+  parse_dec [] = None /\ parse_dec [49;95;48] = None.
+Proof. vm_compute. repeat split; reflexivity. Qed.
+
 (* ---- the generic two-section codec -------------------------------------- *)
 
 (* codec_roundtrip: for EVERY schema t (whose sequence elements occupy at least
@@ -179,7 +191,7 @@ Definition example_program : program :=
      p_names := [[117;112;112;101;114]];
      p_constants := [CString [255;254]; CBytes [0]; CInt (-9223372036854775808);
                      CFloat 9223372036854775808 (* -0.0 *); CFloat 9221120237041090561 (* a NaN *);
-                     CBigInt [49;56;52;52;54;55;52;52;48;55;51;55;48;57;53;53;49;54;49;54]];
+                     CBigInt 18446744073709551616; CBigInt (-340282366920938463463374607431768211456); CBigInt 0];
      p_globals := [{| b_name := [103]; b_line := 2; b_col := 1 |}];
      p_toplevel := example_funcode; p_functions := [example_funcode];
      p_recursion := true |}.
